@@ -412,29 +412,30 @@ Record quirks := {
   q_builder_template : bool;     (* 9 Request/ResponseBuilder: unparsable template accepted -> template.Must panics in Init *)
   q_topic_index : bool;          (* 10 TopicMapper: negative matchIndex/topicIndex accepted -> index out of range *)
   q_flow_namespace : bool;       (* 11 Pipeline: flow node in a namespace nobody fills -> nil request type assertion *)
-  q_stream_compress : bool       (* 12 Proxy: compression + streamed response body (negative serverMaxBodySize) -> nil deref in collectMetrics *)
+  q_stream_compress : bool;      (* 12 Proxy: compression + streamed response body (negative serverMaxBodySize) -> nil deref in collectMetrics *)
+  q_mqtt_rules : bool            (* 13 MQTTProxy: rule without `when` / unknown or repeated packetType accepted -> newBroker panics *)
 }.
 
 Definition ideal : quirks :=
   {| q_wr_zero_total := false; q_rl_zero_period := false; q_sig_no_keystore := false; q_adaptor_codec := false;
      q_policy_ref := false; q_fallback_nil_resp := false; q_null_entry := false; q_retry_jitter := false;
-     q_builder_template := false; q_topic_index := false; q_flow_namespace := false; q_stream_compress := false |}.
+     q_builder_template := false; q_topic_index := false; q_flow_namespace := false; q_stream_compress := false; q_mqtt_rules := false |}.
 
 Definition flag (q : quirks) (i : N) : bool :=
   match i with
   | 1 => q_wr_zero_total q | 2 => q_rl_zero_period q | 3 => q_sig_no_keystore q | 4 => q_adaptor_codec q
   | 5 => q_policy_ref q | 6 => q_fallback_nil_resp q | 7 => q_null_entry q | 8 => q_retry_jitter q
-  | 9 => q_builder_template q | 10 => q_topic_index q | 11 => q_flow_namespace q | 12 => q_stream_compress q
+  | 9 => q_builder_template q | 10 => q_topic_index q | 11 => q_flow_namespace q | 12 => q_stream_compress q | 13 => q_mqtt_rules q
   | _ => false
   end%N.
 
-Definition nflags : N := 12.
+Definition nflags : N := 13.
 
 Definition only (i : N) : quirks :=
   {| q_wr_zero_total := (i =? 1)%N; q_rl_zero_period := (i =? 2)%N; q_sig_no_keystore := (i =? 3)%N;
      q_adaptor_codec := (i =? 4)%N; q_policy_ref := (i =? 5)%N; q_fallback_nil_resp := (i =? 6)%N;
      q_null_entry := (i =? 7)%N; q_retry_jitter := (i =? 8)%N; q_builder_template := (i =? 9)%N;
-     q_topic_index := (i =? 10)%N; q_flow_namespace := (i =? 11)%N; q_stream_compress := (i =? 12)%N |}.
+     q_topic_index := (i =? 10)%N; q_flow_namespace := (i =? 11)%N; q_stream_compress := (i =? 12)%N; q_mqtt_rules := (i =? 13)%N |}.
 
 (** ** null entries (quirk 7): a [null] in a list / map of pointers survives
     validation because TrimNull removes it before the schema sees the document *)
@@ -619,6 +620,22 @@ Fixpoint flow_ok (decls : list (string * string)) (nodes : list jvalue) : bool *
 Fixpoint names_distinct (l : list string) : bool :=
   match l with [] => true | x :: t => negb (in_list x t) && names_distinct t end.
 
+(** mqttproxy: no Validate() in the unchanged code; getPipelineMap (called by newBroker, which panics on its
+    error) needs every rule to have a `when` with one of the five packet types, each at most once.
+    The proposed repair (quirk 13 off) is a Spec.Validate that runs the same check. *)
+Definition mqtt_packet_types : list string := ["Connect"; "Disconnect"; "Publish"; "Subscribe"; "Unsubscribe"].
+
+Definition mqtt_rule_type (r : jvalue) : option string :=
+  match jfield "when" r with
+  | Some w => if is_null w then None else Some (sget "packetType" w)
+  | None => None
+  end.
+
+Definition mqtt_rules_ok (g : jvalue) : bool :=
+  let ts := map mqtt_rule_type (aget "rules" g) in
+  forallb (fun t => match t with Some s => existsb (String.eqb s) mqtt_packet_types | None => false end) ts &&
+  names_distinct (map (fun t => match t with Some s => s | None => "" end) ts).
+
 (** resolution of a pool's policy names against the pipeline's resilience section
     (map insertion order: the last policy of a name wins) *)
 Fixpoint resil_kind (name : string) (rs : list (bool * string * string)) (acc : option string) : option string :=
@@ -642,6 +659,7 @@ Definition custom_validate (o : orc) (q : quirks) (kind : string) (g : jvalue) :
   else if String.eqb kind "RequestBuilder" || String.eqb kind "ResponseBuilder" then builder_validate o q g
   else if String.eqb kind "Retry" then retry_validate o q g
   else if String.eqb kind "TopicMapper" then (if q_topic_index q then true else topic_index_ok g)
+  else if String.eqb kind "MQTTProxy" then (if q_mqtt_rules q then true else mqtt_rules_ok g)
   else true.
 
 (** the Validate() methods modelled above (Go type names); [kind_validators] of the GENERATED file lists
@@ -650,7 +668,7 @@ Definition modelled_validators : list string :=
   ["ratelimiter.Spec"; "urlrule.StringMatch"; "httpheader.ValueValidator"; "validator.Spec";
    "proxy.MethodAndURLMatcher"; "proxy.RequestMatcherSpec"; "proxy.ServerPoolSpec"; "proxy.Spec"; "proxy.StringMatcher";
    "builder.RequestBuilderSpec"; "builder.ResponseBuilderSpec"; "builder.Spec";
-   "resilience.CircuitBreakerPolicy"; "resilience.RetryPolicy"; "topicmapper.Spec"; "pipeline.Spec";
+   "resilience.CircuitBreakerPolicy"; "resilience.RetryPolicy"; "topicmapper.Spec"; "pipeline.Spec"; "mqttproxy.Spec";
    "requestadaptor.Spec"; "responseadaptor.Spec"].
 
 Definition validators_covered (ks : list string) : bool :=
@@ -792,7 +810,8 @@ Definition may_init (o : orc) (q : quirks) (ty : gty) (kind : string) (g : jvalu
   (String.eqb kind "Proxy" && proxy_regex_bad o g) ||
   (is_adaptor kind && negb (codec_ok g)) ||
   (is_builder kind && tpl_bad o g) ||
-  (String.eqb kind "RateLimiter" && existsb (fun u => match rl_bound_policy g u with None => true | Some _ => false end) (aget "urls" g)).
+  (String.eqb kind "RateLimiter" && existsb (fun u => match rl_bound_policy g u with None => true | Some _ => false end) (aget "urls" g)) ||
+  (String.eqb kind "MQTTProxy" && negb (mqtt_rules_ok g)).
 
 Definition may_handle (o : orc) (q : quirks) (ty : gty) (kind : string) (g : jvalue) : bool :=
   has_null_entry ty g ||
